@@ -443,8 +443,8 @@ func HarnessC05CommitFault() {
 // schema, as query operands and as group values — for each writer.
 func HarnessC05Bytes() {
 	out := verifTempPath("c05b.updog")
-	col := "c\xe9" // Latin-1 e-acute
-	vals := []string{"K\xf6ln", "K\xfcln", "ok\xff", "tab\there", ""}
+	col := "c\xe9"                                                    // Latin-1 e-acute
+	vals := []string{"", "K\xf6ln", "K\xfcln", "ok\xff", "tab\there"} // the empty value is the first one its column sees
 	var w verifWriter
 	closeDBs := func() {}
 	if verifBool("big-writer") {
@@ -457,6 +457,19 @@ func HarnessC05Bytes() {
 		id, err := w.AddRow(map[string]string{col: v, "": "under the empty name", "t": verifTag(i)})
 		verifAssert(err == nil && id == uint32(i), "C05: AddRow must assign row ids 0,1,2,... in call order")
 	}
+	// a writer may refuse a row (a column name with a NUL byte is ambiguous in the key
+	// derivation): a refused row is no row — it takes no id and leaves nothing behind
+	acked := len(vals)
+	if verifBool("row-with-NUL-in-a-column-name") {
+		id, err := w.AddRow(map[string]string{"x\x00y": "v", "only-in-the-refused-row": "v", "t": verifTag(len(vals))})
+		if err == nil {
+			verifAssert(id == uint32(len(vals)), "C05: AddRow must assign row ids 0,1,2,... in call order")
+			acked++
+		}
+		id, err = w.AddRow(map[string]string{col: "last", "t": verifTag(len(vals) + 1)})
+		verifAssert(err == nil && id == uint32(acked), "C05: after a refused row the next row must get the next id")
+		acked++
+	}
 	verifAssert(w.Flush() == nil, "C05: Flush failed for names or values that are not valid UTF-8")
 	closeDBs()
 	idx, err := OpenIndex(out)
@@ -466,6 +479,17 @@ func HarnessC05Bytes() {
 	}
 	sch := idx.GetSchema()
 	// columns sorted byte-wise: "", "c\xe9", "t"
+	verifAssert(verifCount(idx, &ExprNot{Expr: &ExprEqual{Column: "t", Value: "nope"}}) == uint64(acked), "C05: the index does not hold exactly the rows whose AddRow succeeded")
+	if acked == len(vals)+1 {
+		// the row with the NUL name was refused: nothing of it may be in the index
+		_, e := idx.Execute(&Query{Expr: &ExprEqual{Column: "only-in-the-refused-row", Value: "v"}})
+		verifAssert(e != nil, "C05: a column that only a refused row carried is in the index")
+	}
+	if acked != len(vals) {
+		idx.Close()
+		verifReach("end")
+		return
+	}
 	ok := len(sch.Columns) == 3 && sch.Columns[0].Name == "" && sch.Columns[1].Name == col && sch.Columns[2].Name == "t"
 	if ok {
 		want := []string{"", "K\xf6ln", "K\xfcln", "ok\xff", "tab\there"} // byte-wise ascending
